@@ -86,6 +86,32 @@ def _mask(t, lvnum):
     return subst(t, rule)
 
 
+def _mask0(t):
+    """every local identity removed, whether or not the term has been renumbered already (key for finding a carried value by name and
+    by the shape of its initial value)"""
+    def rule(x):
+        h = x[0] if x else None
+        if h == 'carried':
+            return ('carried', '?')
+        if h == 'after':
+            return ('after', '?', x[2])
+        if h == 'loopvar':
+            return ('loopvar', '?', x[2])
+        if h == 'undef':
+            return ('undef', '?')
+        if h == 'call' and len(x) > 4 and x[4] is not None:
+            return x[:4] + ('?',)
+        if h in ('inloop', 'handler') and len(x) == 2:
+            return (h, '?')
+        return None
+    return subst(t, rule)
+
+
+_CV_BY_SHAPE = [{}]
+_ANUM = [{}]
+_INT_HINT = [None]
+
+
 def _renumber(t, lvnum=None, cvnum=None):
     """line numbers out of 'after' wrappers, loop / handler markers; loop variables numbered by the program order of their
     loops (lvnum), carried names and allocation / draw identities by first appearance"""
@@ -113,15 +139,20 @@ def _renumber(t, lvnum=None, cvnum=None):
                 return None
             k = cvnum.get((x[1], digest(x[2]) if len(x) > 2 else None))
             if k is None:
-                # the initial value below has been renumbered already (allocation ids): a name carried by one loop only is found by name
+                # the initial value below has been renumbered already (allocation ids): a name carried by one loop only is found by name,
+                # otherwise by name and the shape of its initial value
                 ks = [v for (nm, _), v in cvnum.items() if nm == x[1]]
                 if len(ks) == 1:
                     k = ks[0]
+                elif len(ks) > 1 and len(x) > 2:
+                    k = _CV_BY_SHAPE[0].get((id(cvnum), x[1], digest(_mask0(x[2]))))
             return ('carried', f"#c{k}" if k is not None else num('d', (x[1], x[2] if len(x) > 2 else None)),) + tuple(x[2:])
         if h == 'undef':
             return ('undef', '#')
         if h == 'call' and len(x) > 4 and x[4] is not None and not (isinstance(x[4], str) and x[4].startswith('#')):
-            return x[:4] + (num('a', x[4]),)
+            # an allocation / draw site is named by what it allocates (and its rank among equal-looking sites of the function), not by
+            # the order in which a particular term happens to mention it
+            return x[:4] + (_ANUM[0].get(x[4]) or num('a', x[4]),)
         if h in ('inloop', 'handler') and len(x) == 2 and isinstance(x[1], int):
             return (h, num('L', x[1]))
         return None
@@ -409,15 +440,51 @@ def _cond_key(conds, lvnum=None, cvnum=None):
 class Summary:
     def __init__(self, prog, eff, f: Func):
         from . import terms as _terms
-        _terms.INT_PARAMS = _terms.int_params(f.node)
+        if _INT_HINT[0] is not None:
+            _terms.INT_PARAMS, _terms.INT_ARRAY_PARAMS = _INT_HINT[0]         # what is known about the function, for it and its reference alike
+        else:
+            _terms.INT_PARAMS = _terms.int_params(f.node)
+            _terms.INT_ARRAY_PARAMS = _terms.int_array_params(f.node)
         try:
             self._build(prog, eff, f)
         finally:
             _terms.INT_PARAMS = set()
+            _terms.INT_ARRAY_PARAMS = set()
+            _terms.INT_TERMS = set()
 
     def _build(self, prog, eff, f: Func):
         self.f = f
         r = Recon(prog, eff, f).run()
+        # a term that the function uses as a scalar index of an array is an integer wherever it occurs
+        ints = set()
+        def _collect(d_):
+            for x_ in walk(d_):
+                if x_[0] == 'idx' and len(x_) >= 3 and isinstance(x_[2], tuple):
+                    comps = x_[2][1] if x_[2][0] == 'tuple' else (x_[2],)
+                    for c_ in comps:
+                        if isinstance(c_, tuple) and c_ and c_[0] in ('idx', 'phi', 'carried', 'after'):
+                            try:
+                                ints.add(c_)
+                            except TypeError:
+                                pass
+        for ev_ in r.events:
+            for d_ in ev_.data:
+                if isinstance(d_, tuple):
+                    _collect(d_)
+        from . import terms as _t2
+        _t2.INT_TERMS = ints
+        sites = {}
+        for t_, _c, _n in r.calls:
+            if len(t_) > 4 and t_[4] is not None and not isinstance(t_[4], str):
+                sites.setdefault(t_[4], t_)
+        groups_ = {}
+        for uid_, t_ in sites.items():
+            groups_.setdefault(digest(_mask0(t_)), []).append(uid_)
+        anum = {}
+        for dg_, uids_ in groups_.items():
+            for rk_, uid_ in enumerate(sorted(uids_)):
+                anum[uid_] = f"#a{dg_[:8]}.{rk_}"
+        _ANUM[0] = anum
         self.loops = 0
         self.entries = []       # (kind, condkey, data-as-term)
         rawconds = {}
@@ -440,6 +507,7 @@ class Summary:
         self._raw_returns = []
         # loop-carried values are ranked by what they are (loop, initial value, update), not by the order in which a traversal
         # happens to meet them: `x - llk` and `-llk + x` must give the same numbering
+        self._inits_by_ident = {}
         loop_ord, ranked = {}, []
         for i_ in loop_order:
             loop_ord.setdefault(id(loops_[i_].node), len(loop_ord))
@@ -450,6 +518,7 @@ class Summary:
                 key = (loop_ord.get(id(ev.node), -1), digest(_arith(_resort(_phitable(_mask(_simplify2(init), lvnum))))) if init is not None else '',
                        digest(_arith(_resort(_phitable(_mask(_simplify2(body), lvnum))))))
                 ranked.append((key, len(ranked), (entry[1], digest(init) if init is not None else None)))
+                self.__dict__.setdefault('_inits_by_ident', {})[(entry[1], digest(init) if init is not None else None)] = init
         cvnum = {}
         per_loop = {}
         for key, _, ident in sorted(ranked):
@@ -458,6 +527,18 @@ class Summary:
                 per_loop[key[0]] = k_ + 1
                 cvnum[ident] = f"{key[0]}.{k_}"        # numbered within their own loop: what other loops carry does not matter
         self.cvnum = cvnum
+        shapes = {}
+        for (nm, _dg), v in cvnum.items():
+            pass
+        for key, _, ident in sorted(ranked):
+            init_ = self._inits_by_ident.get(ident)
+            if init_ is not None:
+                k2 = (id(cvnum), ident[0], digest(_mask0(init_)))
+                if k2 in shapes and shapes[k2] != cvnum[ident]:
+                    shapes[k2] = None           # ambiguous: two carried values of one name with initial values of the same shape
+                else:
+                    shapes[k2] = cvnum[ident]
+        _CV_BY_SHAPE[0] = {k_: v for k_, v in shapes.items() if v is not None}
         # liveness of loop-carried values: one that nothing but its own update ever reads (a temporary that happens to be assigned
         # under a condition) is not part of what the function computes
         def carried_in(t):
@@ -523,7 +604,9 @@ class Summary:
                 self._raw_returns.append(ev)
         # the returns outside loops are one result: `if c: return a` followed by `return b` is `return a if c else b`
         top = [(i, e) for i, e in enumerate(self._raw_returns) if not any(isinstance(c, tuple) and c and c[0] == 'inloop' for c, _ in e.conds)]
-        if len(top) > 1:
+        if len(top) >= 1 and (len(top) > 1 or any(not (isinstance(c, tuple) and c and c[0] == 'inloop') for c, _ in top[0][1].conds)):
+            # (a single return that sits behind a guard - after `if bad: raise` - is folded the same way, so that one conditional-expression
+            # return and an if/else pair of returns coincide)
             val = ('const', 'no-return')        # every return is guarded by its own path condition, whichever is written last
             for _, e in reversed(top):
                 v = e.data[0] if e.data[0] is not None else ('const', None)
@@ -787,13 +870,22 @@ def compare(ctx, target_q, spec_node, rule, what):
         ctx.violation(rule, construct, f"default value of parameter(s) {diff} of {tf.name} changed: "
                       + ", ".join(f"{k}={d_got.get(k, '<required>')} (reference: {d_want.get(k, '<required>')})" for k in diff), tf.where())
         return False
-    got, want = Summary(ctx.prog, ctx.eff, tf), Summary(ctx.prog, ctx.eff, sf)
+    from . import terms as _terms
+    _INT_HINT[0] = (_terms.int_params(tf.node) | _terms.int_params(spec_node), _terms.int_array_params(tf.node) | _terms.int_array_params(spec_node))
+    try:
+        got, want = Summary(ctx.prog, ctx.eff, tf), Summary(ctx.prog, ctx.eff, sf)
+    finally:
+        _INT_HINT[0] = None
     if got.keys() == want.keys() or got.keys(arith=True) == want.keys(arith=True):
         ctx.ok(rule, construct, what)
         return True
     inl = inline_new_helpers(ctx.prog, tf)
     if inl is not None:
-        got2 = Summary(ctx.prog, ctx.eff, inl)
+        _INT_HINT[0] = (_terms.int_params(tf.node) | _terms.int_params(spec_node), _terms.int_array_params(tf.node) | _terms.int_array_params(spec_node))
+        try:
+            got2 = Summary(ctx.prog, ctx.eff, inl)
+        finally:
+            _INT_HINT[0] = None
         if got2.keys() == want.keys() or got2.keys(arith=True) == want.keys(arith=True):
             ctx.ok(rule, construct, what + " (after inlining helper functions that the confirmed tree does not have)")
             return True
@@ -868,7 +960,12 @@ def compare_slice(ctx, target_q, spec_node, rule, what, callee_prefixes=(), fiel
     fields (with the terms of the stored values)"""
     tf = ctx.func(target_q)
     sf = Func(target_q + '#reference', tf.module, spec_node, tf.cls, tf.jit)
-    got, want = Summary(ctx.prog, ctx.eff, tf), Summary(ctx.prog, ctx.eff, sf)
+    from . import terms as _terms
+    _INT_HINT[0] = (_terms.int_params(tf.node) | _terms.int_params(spec_node), _terms.int_array_params(tf.node) | _terms.int_array_params(spec_node))
+    try:
+        got, want = Summary(ctx.prog, ctx.eff, tf), Summary(ctx.prog, ctx.eff, sf)
+    finally:
+        _INT_HINT[0] = None
 
     def pick(sm):
         out = []
